@@ -78,6 +78,21 @@ CLAIMED = {
    note='requests, copy.deepcopy and jsonutils.dumps are oracles.',
    technique='Coq proof (string characterisation, trace invariant) + differential with a recording stub',
    design='6 C16'),
+ 'C15': dict(
+   text='Proof (Coq): for every tree the text language can express (And/Or with >= 2 children, leaves whose printed form is a word that parses back to the same leaf) parse(print t) = t, so printing is injective and equal printed forms imply equal decisions; every rule the text parser returns is such a tree, hence parse . print is the identity on parsed rules (F14 repair); a dumped rule set (always-allow as the empty string) loads back to the same checks. Printer formats are regenerated from the __str__ methods each run. Differential: enumerated and random expressions over leaves of every built-in kind and list-of-lists rules: tree, text and decisions after a print/parse round, str(Rules)/Rules.load, RuleDefault.__eq__.',
+   note='jsonutils.dumps/loads of the rule-set dump is an oracle; list-form leaves that the text language cannot express (embedded whitespace, quote-delimited, leading/trailing parentheses) are outside the quantifier.',
+   technique='Coq proof (tree-to-sentence embedding, tokenizer rendering theorem, parser completeness/soundness) + generated printer formats + differential correspondence',
+   design='6 C15'),
+ 'C17': dict(
+   text='Proof (Coq): for every list of defaults (any description / reason / operation list / scope list / deprecation shape) every line of the generated YAML sample is blank or a comment and free of line breaks; the only lines starting with #" are the rule lines, one per default in order; with those uncommented a line-class reader sees exactly name -> check string (names and check strings free of double quotes); the JSON sample is the object of the same rule lines. textwrap.wrap is an oracle with the stated contract. Differential: hostile descriptions/reasons (all Python line-break characters, #, quotes, colons, leading whitespace, over-long words, text that looks like a rule line): generated text vs the model (wrap placeholders expanded by the real textwrap), PyYAML/JSON/Rules.load re-reading. Partial: PyYAML agreement with the line-class reader and the textwrap contract are validated differentially, not proved.',
+   note='description.strip().splitlines() is computed by the harness and given to the model as lines; operation paths, scope types and deprecated_since with line breaks are outside the domain (wf_gdefault).',
+   technique='Coq proof (line-structure invariants over the assembly) + differential against PyYAML/JSON',
+   design='6 C17'),
+ 'C19': dict(
+   text='Proof (Coq): for credentials in which system mirrors system_scope (what the tool derives since the F9 repair) the verdict printed for a requested rule is the decision of Enforcer.enforce (passed iff allowed, failed iff denied, including an unresolvable name), the listing is one verdict per stored name containing a colon in sorted order, and each listed verdict is the library decision for that name. Differential: generated policy files x sample and generated tokens (project/domain/system/unscoped) x is_admin x nested target files x requested rules: tool stdout vs Enforcer.enforce and vs the model (credential/target derivation, flatten).',
+   note='jsonutils.loads and the token layout are oracles; a token that itself carries a system_scope field is outside the theorem hypothesis.',
+   technique='Coq proof (reduction to the enforce model) + differential on the console entry point',
+   design='6 C19'),
 }
 REASON_PENDING = 'check not built yet in this session (model/theorems in progress); not claimed'
 def main():
